@@ -95,23 +95,21 @@ func errorChain(p *core.Program, isSeed func(*ssa.Function, ssa.CallInstruction)
 	for changed := true; changed; {
 		changed = false
 		for _, si := range all {
-			// a deferred closure's parent carries the error in its named result
-			u := si.fn
-			for u.Parent() != nil && deferredIn(u) {
-				u = u.Parent()
-			}
-			if !hasErrorResult(u.Signature) || P[u] {
-				continue
-			}
 			hit := si.seed
 			for _, cal := range si.callees {
 				if P[cal] {
 					hit = true
 				}
 			}
-			if hit {
-				P[u] = true
-				changed = true
+			if !hit {
+				continue
+			}
+			// a deferred closure's parent, or the callers of a helper with an *error out-parameter, carry the error
+			for _, u := range unitsFor(p, si.fn, 0) {
+				if hasErrorResult(u.Signature) && !P[u] {
+					P[u] = true
+					changed = true
+				}
 			}
 		}
 	}
@@ -170,15 +168,65 @@ func deferredIn(fn *ssa.Function) bool {
 // the call returns a non-nil error, the unit returns a non-nil error, sends the
 // error on a channel, or ends the process through log.Fatal.
 func checkErrSite(c *core.Ctx, rule string, s errSite) {
-	unit := s.fn
-	for unit.Parent() != nil && deferredIn(unit) {
-		unit = unit.Parent()
+	units := unitsFor(c.P, s.fn, 0)
+	if len(units) == 0 {
+		units = []*ssa.Function{s.fn}
 	}
+	for _, u := range units {
+		checkErrSiteIn(c, rule, s, u)
+	}
+}
+
+func hasErrPtrParam(fn *ssa.Function) bool {
+	for _, p := range fn.Params {
+		if pt, ok := p.Type().(*types.Pointer); ok && isErrorType(pt.Elem()) {
+			return true
+		}
+	}
+	return false
+}
+
+// unitsFor: the functions whose result carries an error raised inside fn.
+func unitsFor(p *core.Program, fn *ssa.Function, depth int) []*ssa.Function {
+	if depth > 4 {
+		return []*ssa.Function{fn}
+	}
+	if fn.Parent() != nil && deferredIn(fn) {
+		return unitsFor(p, fn.Parent(), depth+1)
+	}
+	if hasErrPtrParam(fn) && !hasErrorResult(fn.Signature) {
+		var out []*ssa.Function
+		seen := map[*ssa.Function]bool{}
+		for _, g := range p.Funcs {
+			for _, b := range g.Blocks {
+				for _, in := range b.Instrs {
+					if ci, ok := in.(ssa.CallInstruction); ok && ci.Common().StaticCallee() == fn {
+						for _, u := range unitsFor(p, g, depth+1) {
+							if !seen[u] {
+								seen[u] = true
+								out = append(out, u)
+							}
+						}
+					}
+				}
+			}
+		}
+		if len(out) > 0 {
+			return out
+		}
+	}
+	return []*ssa.Function{fn}
+}
+
+func checkErrSiteIn(c *core.Ctx, rule string, s errSite, unit *ssa.Function) {
 	fname := core.FuncName(s.fn)
 	pos := c.P.Pos(s.call.Pos())
 	disc := s.callee
 	if _, isDefer := s.call.(*ssa.Defer); isDefer {
 		disc = "defer " + disc
+	}
+	if unit != s.fn && !(s.fn.Parent() != nil && deferredIn(s.fn)) {
+		disc += " via " + core.FuncName(unit)
 	}
 	x := newExec(c)
 	x.MaxDepth = 6
@@ -188,7 +236,8 @@ func checkErrSite(c *core.Ctx, rule string, s errSite) {
 				return true
 			}
 		}
-		return false
+		// a helper that reports through an *error out-parameter is part of its caller's error handling
+		return c.P.InScope(callee) && hasErrPtrParam(callee)
 	}
 	x.Hooks.Call = func(x *absint.Exec, st *absint.State, site ssa.CallInstruction, callee *ssa.Function, fnv absint.Value, args []absint.Value) (absint.Value, bool) {
 		if site == s.call {
